@@ -698,7 +698,198 @@ class ProtoGenC02(gp.ProtoGen):
             self._value_info_into(f.value_info.add(), rng.choice(inputs + outs))
         return {"domain": domain, "name": name, "overload": overload, "n_in": len(inputs), "n_out": 1}
 
+    # ---- function value info parked in the main graph (IR < 10) ----------------------------------
+    def _park_function_value_info(self, m: onnx.ModelProto) -> None:
+        if "fn_value_info_pre10" not in self.enabled or not len(m.functions):
+            return
+        rng = self.rng
+        taken = {v.name for v in m.graph.value_info}
+        for f in m.functions:
+            if f.overload or "/" in f.name or "::" in f.name or "/" in f.domain or "::" in f.domain:
+                continue
+            kinds = [("input", nm) for nm in f.input] + [("node_output", o) for n in f.node for o in n.output if o]
+            for where, nm in dict.fromkeys(kinds):
+                entry = f"{f.domain}::{f.name}/{nm}"
+                if "/" in nm or entry in taken or rng.random() >= 0.6:
+                    continue
+                taken.add(entry)
+                self._value_info_into(m.graph.value_info.add(), entry)
+                self.used.add("fn_value_info_pre10")
+                self.used.add("func_value_info")
+                self.used.add(f"fn_value_info_pre10:{where}")
+                self.used.add("fn_value_info_pre10:function_with%s_inputs" % ("" if len(f.input) else "out"))
+                self.used.add("fn_value_info_pre10:function_with%s_outputs" % ("" if len(f.output) else "out"))
+        if len(m.graph.value_info) > 1 and rng.random() < 0.5:
+            order = [onnx.ValueInfoProto() for _ in m.graph.value_info]
+            for c, o in zip(order, m.graph.value_info):
+                c.CopyFrom(o)
+            rng.shuffle(order)
+            del m.graph.value_info[:]
+            m.graph.value_info.extend(order)
+
+    # ---- carriers of degenerate arity ----------------------------------------------------------------
+    def _degenerate(self, carrier: str, p: float) -> bool:
+        if "degenerate_arity" not in self.enabled:
+            return False
+        if self.rng.random() >= (max(p, 0.7) if "degenerate_arity" in self.forced else p):
+            return False
+        self.used.add("degenerate_arity")
+        return True
+
+    def _shape_of(self, carrier: str, options: list[str]) -> str:
+        shape = self.rng.choice(options)
+        self.used.add(f"degenerate:{carrier}:{shape}")
+        return shape
+
+    def _maybe_sink_node(self, container, visible: list[str], depth: int) -> None:
+        """Rarely: one more node that has no outputs (and, half of the time, no inputs either)."""
+        if self.rng.random() >= 0.2:
+            return
+        n = container.add()
+        self._node_into(n, visible=visible if self.rng.random() < 0.5 else [], depth=depth)
+        if len(n.device_configurations):
+            return  # its sharding specs may name the outputs: leave the node as it is
+        del n.output[:]
+        self.used.add("degenerate:node:no_output")
+        if not len(n.input):
+            self.used.add("degenerate:node:no_input_no_output")
+
+    def _degenerate_function(self, f: onnx.FunctionProto, domain: str, name: str, overload: str) -> dict:
+        rng = self.rng
+        self.carriers.add("function")
+        f.name = name
+        if domain:
+            f.domain = domain
+        if overload:
+            f.overload = overload
+            self.used.add("overloads")
+        if self.on("func_doc", 0.6):
+            f.doc_string = self.text()
+        self._meta(f.metadata_props, "func_meta", 0.6)
+        shape = self._shape_of("function", ["no_input", "no_input", "no_node", "no_output", "no_input_no_output", "nothing"])
+        n_in = 0 if shape in ("no_input", "no_input_no_output", "nothing") else rng.randint(1, 3)
+        n_nodes = 0 if shape in ("no_node", "nothing") else rng.randint(1, 3)
+        inputs = [self.name("fi") for _ in range(n_in)]
+        f.input.extend(inputs)
+        func_attrs: list[tuple[str, int]] = []
+        if rng.random() < 0.5:
+            self.used.add(f"degenerate:function:{shape}:no_attribute")
+        else:
+            kinds = [k for k in self._attr_kinds(self.max_depth)] or ["attr_int"]
+            for an in rng.sample(("axis", "mode", "scale", "body", "kind", "eps"), rng.randint(1, 3)):
+                if self.on("func_attr_defaults", 0.5):
+                    kind = rng.choice(kinds)
+                    self._attribute_into(f.attribute_proto.add(), an, kind, depth=self.max_depth, visible=[])
+                    func_attrs.append((an, gp.ATTR_KINDS[kind]))
+                elif self.on("func_attr_params", 0.8):
+                    f.attribute.append(an)
+                    func_attrs.append((an, rng.choice(list(gp.ATTR_KINDS.values()))))
+        saved = (self._func_attrs, self._domains)
+        self._func_attrs = func_attrs or None
+        self._domains = {}
+        try:
+            local = list(inputs)
+            node_outs: list[str] = []
+            for _ in range(n_nodes):
+                outs = self._node_into(f.node.add(), visible=local, depth=0)
+                node_outs.extend(outs)
+                local.extend(outs)
+            if n_nodes:
+                self._maybe_sink_node(f.node, local, 0)
+            domains = self._domains
+        finally:
+            self._func_attrs, self._domains = saved
+        if shape in ("no_output", "no_input_no_output", "nothing"):
+            pass
+        elif shape == "no_node":
+            f.output.extend(rng.sample(inputs, rng.randint(1, len(inputs))))  # outputs forward inputs
+        else:
+            f.output.extend(rng.sample(node_outs, min(len(node_outs), rng.randint(1, 2))))
+        domains.setdefault("", rng.randint(13, 23))
+        if self.on("func_multi_opset", 0.5):
+            domains.setdefault("com.extra", rng.randint(1, 3))
+        self._opsets_into(f.opset_import, domains)
+        if "func_value_info" in self.enabled:
+            for nm in inputs + node_outs:
+                if self.on("func_value_info", 0.6):
+                    self._value_info_into(f.value_info.add(), nm)
+        return {"domain": domain, "name": name, "overload": overload, "n_in": len(inputs), "n_out": len(f.output)}
+
+    def _degenerate_graph(self, g: onnx.GraphProto, *, depth: int, outer: list[str]) -> None:
+        rng = self.rng
+        self.carriers.add("graph")
+        g.name = self.name("graph")
+        if self.on("graph_doc", 0.5):
+            g.doc_string = self.text()
+        self._meta(g.metadata_props, "graph_meta", 0.5)
+        shape = self._shape_of("graph", ["no_input", "no_input", "no_node", "no_output", "no_input_no_output"])
+        no_input = shape in ("no_input", "no_input_no_output")
+        local: list[str] = []
+        inputs: list[str] = []
+        for _ in range(0 if no_input else rng.randint(1, 3)):
+            nm = self.name("in")
+            self._value_info_into(g.input.add(), nm, may_be_untyped=True)
+            inputs.append(nm)
+            local.append(nm)
+        init_names: list[str] = []
+        # IR 3 requires initializers to be graph inputs: a graph without inputs has none there
+        if not (no_input and self.ir_version < 4) and self.on("initializers", 0.8):
+            for _ in range(rng.randint(1, 2)):
+                nm = self.name("w")
+                t = g.initializer.add()
+                self._tensor_into(t, nm)
+                init_names.append(nm)
+                local.append(nm)
+                if self.ir_version < 4 or (not no_input and self.on("init_as_input", 0.3)):
+                    self._value_info_into(g.input.add(), nm, for_tensor=t)
+                    inputs.append(nm)
+                elif self.on("init_value_info", 0.5):
+                    self._value_info_into(g.value_info.add(), nm, for_tensor=t)
+        visible_outer = list(outer) if (outer and "captures" in self.enabled) else []
+        if visible_outer:
+            self.used.add("captures")
+        node_outs: list[str] = []
+        if shape != "no_node":
+            for _ in range(rng.randint(1, 3 if depth == 0 else 2)):
+                outs = self._node_into(g.node.add(), visible=visible_outer + local, depth=depth)
+                node_outs.extend(outs)
+                local.extend(outs)
+            self._maybe_sink_node(g.node, visible_outer + local, depth)
+        graph_outs: list[str] = []
+        if shape in ("no_output", "no_input_no_output"):
+            pass
+        elif shape == "no_node":
+            with_entry = {v.name for v in g.value_info}
+            passable = inputs + [nm for nm in init_names if nm not in inputs and nm not in with_entry]
+            for pick in rng.sample(passable, min(len(passable), rng.randint(1, 2))):
+                if pick in inputs:
+                    g.output.add().CopyFrom(next(v for v in g.input if v.name == pick))  # identical declaration
+                else:
+                    self._value_info_into(g.output.add(), pick, for_tensor=next(t for t in g.initializer if t.name == pick))
+            self.used.add("passthrough_output")
+        else:
+            graph_outs = rng.sample(node_outs, min(len(node_outs), rng.randint(1, 2)))
+            for nm in graph_outs:
+                self._value_info_into(g.output.add(), nm, may_be_untyped=True)
+        for nm in node_outs:
+            if nm not in graph_outs and self.on("value_info", 0.5):
+                self._value_info_into(g.value_info.add(), nm)
+        annotatable = inputs + [nm for nm in init_names if nm not in inputs] + node_outs
+        if annotatable and self.on("quant_annotation", 0.5):
+            for nm in dict.fromkeys(rng.sample(annotatable, min(len(annotatable), rng.randint(1, 2)))):
+                ann = g.quantization_annotation.add()
+                ann.tensor_name = nm
+                for k in sorted(rng.sample(("SCALE_TENSOR", "ZERO_POINT_TENSOR", "AXIS_HINT"), rng.randint(1, 2))):
+                    e = ann.quant_parameter_tensor_names.add()
+                    e.key = k
+                    e.value = f"{nm}_{k.lower()}"
+
     def model(self) -> onnx.ModelProto:
+        m = self._model_body()
+        self._park_function_value_info(m)
+        return m
+
+    def _model_body(self) -> onnx.ModelProto:
         if not self._sparse("model"):
             return super().model()
         rng = self.rng
@@ -760,3 +951,32 @@ class ProtoGenC02(gp.ProtoGen):
             self.carriers.add("value_info")
             return vi
         return super().build(kind)
+
+
+# ---- for the oracle -----------------------------------------------------------------------------
+
+
+def entries_for_functions(model: onnx.ModelProto) -> list[onnx.ValueInfoProto]:
+    """The ``value_info`` entries of the main graph of an IR < 10 model that describe a value of a
+    model-local function: named ``{domain}::{function}/{value}`` (exactly one '/', exactly one '::'
+    before it), the function (without overload) is in the model, the value is one of its inputs or an
+    output of one of its top-level nodes, and no value of the main graph itself has that name."""
+    if model.ir_version >= _STRUCTURED_MIN_IR or not len(model.functions):
+        return []
+    g = model.graph
+    own = {v.name for v in g.input} | {v.name for v in g.output} | {t.name for t in g.initializer}
+    own |= {o for n in g.node for o in n.output}
+    values: dict[tuple[str, str], set[str]] = {}
+    for f in model.functions:
+        if f.overload:
+            continue
+        values.setdefault((f.domain, f.name), set()).update(list(f.input) + [o for n in f.node for o in n.output if o])
+    out = []
+    for vi in g.value_info:
+        head, slash, value = vi.name.partition("/")
+        domain, colons, fname = head.partition("::")
+        if not slash or not colons or "/" in value or "::" in fname or vi.name in own:
+            continue
+        if value in values.get((domain, fname), ()):
+            out.append(vi)
+    return out
